@@ -382,12 +382,13 @@ pub fn explore(cfg: &Config, seed: u64, dfs_budget: u64, random_schedules: u64) 
 
 /// Free-running leg: real OS threads execute the same steps against shared state with injected
 /// yields; the decoder monitor runs at quiescence.
-pub fn free_run(cfg: &Config, seed: u64) -> Option<Bad> {
+/// Err = the wall-clock watchdog fired (inconclusive on a loaded machine, never a verdict).
+pub fn free_run(cfg: &Config, seed: u64) -> Result<Option<Bad>, String> {
     use std::sync::atomic::{AtomicUsize, Ordering};
     use std::sync::Mutex;
     let owners: Vec<AtomicUsize> = (0..cfg.n_mutex).map(|_| AtomicUsize::new(usize::MAX)).collect();
     let ports: Vec<Mutex<String>> = (0..cfg.n_ports).map(|_| Mutex::new(String::new())).collect();
-    let deadline = std::time::Instant::now() + std::time::Duration::from_secs(20);
+    let deadline = std::time::Instant::now() + std::time::Duration::from_secs(120);
     let stuck = std::sync::atomic::AtomicBool::new(false);
     std::thread::scope(|sc| {
         for (ti, steps) in cfg.threads.iter().enumerate() {
@@ -420,8 +421,8 @@ pub fn free_run(cfg: &Config, seed: u64) -> Option<Bad> {
         }
     });
     if stuck.load(std::sync::atomic::Ordering::Relaxed) {
-        return Some(Bad::Deadlock { detail: "free-running threads did not finish within the watchdog".into(), trace: vec![] });
+        return Err("free-running threads did not finish within the 120 s watchdog".into());
     }
     let st = State { pc: cfg.threads.iter().map(|t| t.len()).collect(), owner: vec![None; cfg.n_mutex], ports: ports.into_iter().map(|p| p.into_inner().unwrap()).collect() };
-    check_quiescent(cfg, &st).map(|d| Bad::Torn { detail: d, trace: vec![] })
+    Ok(check_quiescent(cfg, &st).map(|d| Bad::Torn { detail: d, trace: vec![] }))
 }
